@@ -1,8 +1,12 @@
 package verifh
 
 import (
+	"context"
+	"encoding/json"
 	"fmt"
 	"strings"
+
+	"github.com/creachadair/jrpc2"
 )
 
 // ---------------------------------------------------------------------------
@@ -499,6 +503,288 @@ func (w *srvWorld) stampSendEnds() {
 				w.out[n].EndSeq = byN[e.A]
 			}
 			n++
+		}
+	}
+}
+
+// ---------------------------------------------------------------------------
+// C09: server push
+
+// stampReplyArrivals records when each peer reply reached the server (the
+// Recv return of the record carrying it).
+func (w *srvWorld) stampReplyArrivals() {
+	arr := map[string]int{}
+	for seq, e := range w.r.Sim.Events {
+		if e.Kind == "ch.recv.ret" && e.Tag == "srv" {
+			raw := e.S
+			if i := strings.LastIndex(raw, "|"); i >= 0 {
+				raw = raw[:i]
+			}
+			if _, ok := arr[raw]; !ok {
+				arr[raw] = seq
+			}
+		}
+	}
+	for _, pr := range w.pushed {
+		for i := range pr.Replies {
+			if s, ok := arr[pr.Replies[i].Raw]; ok {
+				pr.Replies[i].Arrive = s
+			}
+		}
+	}
+}
+
+func (w *srvWorld) firstCause() int {
+	first := 1 << 30
+	for _, c := range w.causes {
+		if c.Begin < first {
+			first = c.Begin
+		}
+	}
+	return first
+}
+
+// connEnded is the sequence number after which the connection has certainly
+// ended (an explicit Stop returned, or WaitStatus returned).
+func (w *srvWorld) connEnded() int {
+	e := 1 << 30
+	if w.stopDone >= 0 {
+		e = w.stopDone
+	}
+	if w.waitSeq >= 0 && w.waitSeq < e {
+		e = w.waitSeq
+	}
+	return e
+}
+
+// checkC09 judges the push operations. final=false: at a quiescent point with
+// the connection possibly still up (operations without a reason to return may
+// still be pending); final=true: after shutdown (everything must have returned).
+func (w *srvWorld) checkC09(final bool) {
+	r := w.r
+	w.noteArrivals()
+	w.stampReplyArrivals()
+	wire := map[string][]*pushRec{}
+	for _, pr := range w.pushed {
+		wire[pr.Tag] = append(wire[pr.Tag], pr)
+	}
+	// pushed requests seen by the server's Send (also those the peer never read)
+	sent := map[string][]respObj{}
+	sentSeq := map[string]int{}
+	for _, o := range w.out {
+		for _, ob := range o.Objs {
+			if ob.Method != "" {
+				var p tagParams
+				json.Unmarshal([]byte(ob.Params), &p)
+				sent[p.T] = append(sent[p.T], ob)
+				sentSeq[p.T] = o.Seq
+			}
+		}
+	}
+	lastQ := -1
+	if len(w.qpoints) > 0 {
+		lastQ = w.qpoints[len(w.qpoints)-1]
+	}
+	used := map[string]string{}
+	for _, a := range w.acts {
+		if a.Kind != aNotify && a.Kind != aCallback {
+			continue
+		}
+		if a.Invoke < 0 {
+			continue
+		}
+		if !w.push {
+			if a.Done && a.ErrV != jrpc2.ErrPushUnsupported {
+				r.Fail("push-sent-while-disabled", "%s with AllowPush=false returned %q, want ErrPushUnsupported", a.Tag, a.Err)
+				return
+			}
+			if len(sent[a.Tag]) > 0 {
+				r.Fail("push-sent-while-disabled", "%s transmitted %d requests although AllowPush=false", a.Tag, len(sent[a.Tag]))
+				return
+			}
+			if !a.Done {
+				r.Fail("callback-never-returned", "%s with AllowPush=false has not returned", a.Tag)
+				return
+			}
+			continue
+		}
+		if a.Invoke > w.connEnded() {
+			if a.Done && a.ErrV != jrpc2.ErrConnClosed {
+				r.Fail("wrong-error-after-close", "%s invoked at #%d, after the connection had ended (#%d), returned %q, want ErrConnClosed", a.Tag, a.Invoke, w.connEnded(), a.Err)
+				return
+			}
+			if len(sent[a.Tag]) > 0 {
+				r.Fail("wrong-error-after-close", "%s invoked after the connection had ended transmitted a request", a.Tag)
+				return
+			}
+		}
+		if len(sent[a.Tag]) > 1 {
+			r.Fail("notify-record-count", "%s transmitted %d requests, want exactly one", a.Tag, len(sent[a.Tag]))
+			return
+		}
+		stopped := w.firstCause() <= a.Return || (a.Return < 0 && w.firstCause() < 1<<30)
+		if a.Kind == aNotify {
+			if !a.Done {
+				if final || (lastQ > a.Invoke && a.FromH == nil) {
+					r.Fail("callback-never-returned", "Notify %s has not returned", a.Tag)
+					return
+				}
+				continue
+			}
+			if a.ErrV == nil {
+				if len(sent[a.Tag]) != 1 || sent[a.Tag][0].ID != "" {
+					r.Fail("notify-record-count", "Notify %s returned nil but transmitted %d requests (want one, without id): %+v", a.Tag, len(sent[a.Tag]), sent[a.Tag])
+					return
+				}
+			} else if !(a.ErrV == jrpc2.ErrConnClosed && w.firstCause() <= a.Return) && w.sEnd.NSendFault == 0 {
+				r.Fail("wrong-outcome", "Notify %s failed with %q although the connection was up", a.Tag, a.Err)
+				return
+			}
+			continue
+		}
+		// Callback
+		var id string
+		if len(sent[a.Tag]) == 1 {
+			id = sent[a.Tag][0].ID
+			if id == "" {
+				r.Fail("notify-record-count", "Callback %s transmitted a request without id", a.Tag)
+				return
+			}
+		}
+		var replies []peerReply
+		for _, pr := range wire[a.Tag] {
+			replies = append(replies, pr.Replies...)
+		}
+		// stray reply-shaped members of the message stream with this id count as replies for it
+		for _, msg := range w.msgs {
+			for _, m := range msg.Members {
+				if m.Kind == mReply && id != "" && m.ID == id && msg.Sent >= 0 {
+					replies = append(replies, peerReply{Seq: msg.Sent, Arrive: msg.Arrive, Payload: "stray-" + m.Tag})
+				}
+			}
+		}
+		ctxEnd, ctxEndDone := 1<<30, 1<<30
+		if a.CancelSeq >= 0 {
+			ctxEnd, ctxEndDone = a.CancelSeq, a.CancelEnd
+		}
+		hctxMayEnd := a.FromH != nil && a.FromH.ID != "" // a call handler's context can be cancelled by CancelRequest
+		if !a.Done {
+			reason := ""
+			for _, rep := range replies {
+				if rep.Arrive >= 0 && rep.Arrive < lastQ && rep.Arrive > sentSeq[a.Tag] {
+					reason = "a reply for its id arrived at #" + fmt.Sprint(rep.Arrive)
+				}
+			}
+			if ctxEndDone < lastQ {
+				reason = "its context ended at #" + fmt.Sprint(ctxEnd)
+			}
+			if w.connEnded() < lastQ {
+				reason = "the connection ended at #" + fmt.Sprint(w.connEnded())
+			}
+			if final {
+				reason = "the server has exited"
+			}
+			if reason != "" && lastQ > a.Invoke {
+				r.Fail("callback-never-returned", "Callback %s (id %s) has not returned although %s (last quiescent point #%d)", a.Tag, id, reason, lastQ)
+				return
+			}
+			continue
+		}
+		switch {
+		case a.ErrV == jrpc2.ErrConnClosed:
+			if !stopped {
+				r.Fail("wrong-outcome", "Callback %s returned ErrConnClosed although the connection was up", a.Tag)
+				return
+			}
+		case a.Result != "" && !strings.HasPrefix(a.Result, "X:"):
+			// returned a reply: it must be one the peer sent for this id, not yet consumed
+			pay := ""
+			for _, rep := range replies {
+				if rep.Seq <= a.Return && (strings.Contains(a.Result, `"`+rep.Payload+`"`) || a.Result == "E:"+rep.Payload) {
+					pay = rep.Payload
+				}
+			}
+			if pay == "" {
+				r.Fail("callback-foreign-reply", "Callback %s (id %s) returned %s, which the peer never sent for that id (replies for it: %+v)", a.Tag, id, a.Result, replies)
+				return
+			}
+			if other, dup := used[pay]; dup {
+				r.Fail("callback-foreign-reply", "reply payload %s was returned to both %s and %s", pay, other, a.Tag)
+				return
+			}
+			used[pay] = a.Tag
+		case a.ErrV == context.Canceled || a.ErrV == context.DeadlineExceeded:
+			okCtx := (a.CtxKind == 1 && a.ErrV == context.Canceled && ctxEnd <= a.Return) ||
+				(a.CtxKind == 2 && a.ErrV == context.DeadlineExceeded && ctxEnd <= a.Return) ||
+				(a.ErrV == context.Canceled && (stopped || hctxMayEnd))
+			if !okCtx {
+				r.Fail("wrong-outcome", "Callback %s returned %v but its context (kind %d) had not ended and the server had not stopped", a.Tag, a.ErrV, a.CtxKind)
+				return
+			}
+			// must have returned a reply if one arrived before a quiescent point that precedes the context end and any stop
+			for _, rep := range replies {
+				if rep.Arrive < 0 || rep.Arrive < sentSeq[a.Tag] {
+					continue
+				}
+				for _, q := range w.qpoints {
+					if rep.Arrive < q && q <= ctxEnd && q < w.firstCause() && !hctxMayEnd {
+						if _, taken := used[rep.Payload]; !taken {
+							r.Fail("wrong-outcome", "Callback %s (id %s) returned %v although reply %s had arrived at #%d, before the quiescent point #%d that precedes the end of its context (#%d)", a.Tag, id, a.ErrV, rep.Payload, rep.Arrive, q, ctxEnd)
+							return
+						}
+					}
+				}
+			}
+		default:
+			if !stopped && w.sEnd.NSendFault == 0 {
+				r.Fail("wrong-outcome", "Callback %s returned error %q although nothing had failed", a.Tag, a.Err)
+				return
+			}
+		}
+	}
+	// callback ids unique among outstanding callbacks
+	type span struct {
+		tag      string
+		from, to int
+	}
+	byID := map[string][]span{}
+	for _, a := range w.acts {
+		if a.Kind == aCallback && len(sent[a.Tag]) == 1 {
+			to := a.Return
+			if to < 0 {
+				to = 1 << 30
+			}
+			id := sent[a.Tag][0].ID
+			for _, o := range byID[id] {
+				if sentSeq[a.Tag] < o.to && o.from < to {
+					r.Fail("callback-id-collision", "callbacks %s and %s were outstanding at the same time with the same id %s", o.tag, a.Tag, id)
+					return
+				}
+			}
+			byID[id] = append(byID[id], span{a.Tag, sentSeq[a.Tag], to})
+		}
+	}
+	// stray output: every response object the server sends answers a request
+	if w.push {
+		answered := map[*member]bool{}
+		for _, o := range w.out {
+			for _, ob := range o.Objs {
+				if ob.Method != "" {
+					continue
+				}
+				var hit *member
+				for _, m := range w.memberByID(ob.ID) {
+					if m.Kind != mReply && !answered[m] && w.msgs[m.Msg].Arrive >= 0 && w.msgs[m.Msg].Arrive <= o.Seq {
+						hit = m
+						break
+					}
+				}
+				if hit == nil {
+					r.Fail("stray-output-for-unmatched-reply", "the server sent %s, which answers no request of the client (a reply that matches no outstanding callback must be discarded silently)", o.Raw)
+					return
+				}
+				answered[hit] = true
+			}
 		}
 	}
 }
